@@ -15,6 +15,7 @@ CONSTANTS
   VarTypes <- VarTypesStd
   VarVals <- VarValsStd
   MaxOverlay = 0
+  TRSets <- NoTR
 INVARIANT R1_Exec
 INVARIANT Emit
 CHECK_DEADLOCK FALSE
